@@ -11,7 +11,9 @@ FirstFault(e) ==
   IF \E i \in 1 .. Len(e.msgs) : MsgFault(e.msgs[i]) # "ok"
     THEN MsgFault(e.msgs[CHOOSE i \in 1 .. Len(e.msgs) : MsgFault(e.msgs[i]) # "ok"])
   ELSE IF e.nmsgs = 0 THEN "no-message"
-  ELSE IF e.has_planted /\ ~(\E i \in 1 .. Len(e.msgs) : PointsAt(e.msgs[i], e.planted)) THEN "not-at-offending-text"
+  \* (a message need not carry a span; if one does, some located message must be at the offending text)
+  ELSE IF e.has_planted /\ (\E i \in 1 .. Len(e.msgs) : e.msgs[i].has_span)
+          /\ ~(\E i \in 1 .. Len(e.msgs) : PointsAt(e.msgs[i], e.planted)) THEN "not-at-offending-text"
   ELSE "ok"
 Errors ==
   /\ Consume /\ Ev.event = "Errors" /\ n' = n + 1
